@@ -1,7 +1,8 @@
 (* C18 -- paged results yield every row exactly once, in order.
    Model: Model/Paging.v (ResultSet + ResponseFuture paging over a scripted server), tied to cassandra/cluster.py
    by correspondence (checks/C18.py).  `server` is ANY script: any number of pages, any page sizes incl. empty, and
-   any number of page requests that end in an error delivered to the application (`Fail`), anywhere. *)
+   any number of page requests that end in an error delivered to the application (`Fail`) and of speculative
+   executions firing inside a page fetch (`Spec`), anywhere; plus continuous paging sessions (`init_cont`). *)
 From Coq Require Import ZArith List Bool.
 From Verif Require Import Paging C18_proofs.
 Import ListNotations.
@@ -21,37 +22,38 @@ Proof. intros srv. destruct (iterate_retry_spec srv) as [A B]. rewrite A, all_ro
 Print Assumptions C18_iter_across_failures.
 
 (* the first request carries no paging state; request k (k >= 1) carries the state returned with page k-1 *)
-Theorem C18_states : forall srv, nfails srv = O -> reqs (fst (iterate srv)) = None :: map Some (states srv).
-Proof. intros srv H. exact (proj2 (iterate_spec srv H)). Qed.
+Theorem C18_states : forall srv, nfails srv = O -> nspecs srv = O -> reqs (fst (iterate srv)) = None :: map Some (states srv).
+Proof. intros srv H H'. exact (proj2 (iterate_spec srv H) H'). Qed.
 Print Assumptions C18_states.
 
-Theorem C18_states_kth : forall srv k st, nfails srv = O -> nth_error (states srv) k = Some st ->
+Theorem C18_states_kth : forall srv k st, nfails srv = O -> nspecs srv = O -> nth_error (states srv) k = Some st ->
   nth_error (reqs (fst (iterate srv))) (S k) = Some (Some st).
-Proof. intros srv k st Hn H. rewrite (C18_states srv Hn). cbn. rewrite nth_error_map, H. reflexivity. Qed.
+Proof. intros srv k st Hn Hs H. rewrite (C18_states srv Hn Hs). cbn. rewrite nth_error_map, H. reflexivity. Qed.
 Print Assumptions C18_states_kth.
 
-(* for ANY access pattern (any sequence of iter/next/fetch_next_page/one/[i]/==/list calls, failures included): the
-   requests sent are a prefix of the expected sequence (states in order, failed requests repeated with the same state),
+(* for ANY access pattern (any sequence of iter/next/fetch_next_page/one/[i]/==/list calls, failures and speculative
+   executions included): the requests sent are a prefix of the expected sequence (states in order; a repeated failed
+   request and a speculative execution of a page fetch carry the same state as the regular request of that page),
    and never more requests than pages + failures: nothing is requested after the page without paging state *)
 Theorem C18_stops : forall srv ops,
   let '(s0, o0) := init srv in let '(s', o) := run_state s0 ops in
   (exists rest, reqs (o0 ++ o) ++ rest = expected_reqs None srv)
-  /\ (length (reqs (o0 ++ o)) <= npages srv + nfails srv)%nat.
+  /\ (length (reqs (o0 ++ o)) <= npages srv + nfails srv + nspecs srv)%nat.
 Proof.
   intros srv ops. pose proof (any_pattern_prefix srv ops) as P.
   destruct (init srv) as [s0 o0]. destruct (run_state s0 ops) as [s' o].
   split; [eexists; exact P|].
-  apply (f_equal (@length _)) in P. rewrite app_length, expected_length in P. rewrite <- P. apply Nat.le_add_r.
+  apply (f_equal (@length _)) in P. rewrite app_length, expected_length in P. unfold size in P. rewrite <- P. apply Nat.le_add_r.
 Qed.
 Print Assumptions C18_stops.
 
-Theorem C18_expected_nofail : forall srv, nfails srv = O -> expected_reqs None srv = None :: map Some (states srv).
-Proof. intros srv H. apply expected_nofail, H. Qed.
+Theorem C18_expected_nofail : forall srv, nfails srv = O -> nspecs srv = O -> expected_reqs None srv = None :: map Some (states srv).
+Proof. intros srv H H'. apply expected_nofail; assumption. Qed.
 Print Assumptions C18_expected_nofail.
 
 (* exactly as many requests as pages when iterating to the end *)
-Theorem C18_stops_iter : forall srv, nfails srv = O -> length (reqs (fst (iterate srv))) = npages srv.
-Proof. intros srv H. rewrite (C18_states srv H). cbn. rewrite map_length. apply states_length. Qed.
+Theorem C18_stops_iter : forall srv, nfails srv = O -> nspecs srv = O -> length (reqs (fst (iterate srv))) = npages srv.
+Proof. intros srv H H'. rewrite (C18_states srv H H'). cbn. rewrite map_length. apply states_length. Qed.
 Print Assumptions C18_stops_iter.
 
 (* materialising through the index / equality operators agrees with iteration (same rows or same exception, same requests) *)
@@ -59,15 +61,15 @@ Theorem C18_list_eq_iter : forall srv, materialise srv = iterate srv.
 Proof. exact materialise_spec. Qed.
 Print Assumptions C18_list_eq_iter.
 
-Theorem C18_getitem : forall srv i, nfails srv = O -> let '(s0, _) := init srv in
+Theorem C18_getitem : forall srv i, nfails srv = O -> nspecs srv = O -> let '(s0, _) := init srv in
   exists o, snd (step s0 (OGetItem i)) = o ++ [Ret (py_getitem (concat (pages srv)) i)] /\ reqs o = map Some (states srv).
-Proof. intros srv i H. rewrite <- all_rows_concat. exact (getitem_spec srv i H). Qed.
+Proof. intros srv i H H'. rewrite <- all_rows_concat. exact (getitem_spec srv i H H'). Qed.
 Print Assumptions C18_getitem.
 
-Theorem C18_eq : forall srv other, nfails srv = O -> let '(s0, _) := init srv in
+Theorem C18_eq : forall srv other, nfails srv = O -> nspecs srv = O -> let '(s0, _) := init srv in
   exists o b, snd (step s0 (OEq other)) = o ++ [Ret (VBool b)] /\ (b = true <-> concat (pages srv) = other).
 Proof.
-  intros srv other Hn. pose proof (eq_spec srv other Hn) as E. destruct (init srv) as [s0 o0].
+  intros srv other Hn Hs. pose proof (eq_spec srv other Hn Hs) as E. destruct (init srv) as [s0 o0].
   destruct E as (o & E & _). exists o, (zlist_eqb (all_rows srv) other). split; [exact E|].
   rewrite <- all_rows_concat. apply zlist_eqb_eq.
 Qed.
@@ -83,10 +85,36 @@ Proof.
 Qed.
 Print Assumptions C18_manual_eq_iter.
 
+(* ---- continuous paging (DSE_V1 and DSE_V2): one request; the pushed pages come out once, in order ---- *)
+Theorem C18_cont_iter : forall srv, snd (iterate_cont srv) = [Ret (VRows (concat (pages srv)))].
+Proof. intros srv. unfold iterate_cont, init_cont. destruct (init srv) as [s0 o0]. cbn. rewrite all_rows_concat. reflexivity. Qed.
+Print Assumptions C18_cont_iter.
+
+(* step by step: after iter(), the k-th next() returns the k-th row of the concatenation *)
+Theorem C18_cont_steps : forall srv, let '(a0, _) := init_cont srv in
+  snd (arun_state (fst (astep a0 OIter)) (repeat ONext (length (concat (pages srv))))) = map (fun r => Ret (VRow r)) (concat (pages srv)).
+Proof.
+  intros srv. unfold init_cont. destruct (init srv) as [s0 o0]. cbn [astep cstep fst gen cmore]. rewrite <- all_rows_concat.
+  apply cont_next_steps.
+Qed.
+Print Assumptions C18_cont_steps.
+
+(* no page is ever requested by a continuous result, whatever (modelled) calls are made and however far they go
+   past the last row: iter/next/list/one/[i]/==/has_more_pages/paging_state *)
+Theorem C18_cont_no_requests : forall srv ops, forallb cont_op ops = true ->
+  let '(a0, o0) := init_cont srv in reqs (snd (arun_state a0 ops)) = [].
+Proof.
+  intros srv ops H. unfold init_cont. destruct (init srv) as [s0 o0]. apply (arun_quiet ops); [exact I | exact H].
+Qed.
+Print Assumptions C18_cont_no_requests.
+
 (* non-vacuity: four pages, two of them empty, one page request failing twice *)
 Example C18_nonvacuous :
   let srv := More [1; 2] 10 (More [] 11 (Fail (Fail (More [3] 12 (Last []))))) in
-  iterate_retry srv = ([Req None; Req (Some 10); Req (Some 11); Req (Some 11); Req (Some 11); Req (Some 12)], VRows [1; 2; 3])
+  iterate (More [1] 10 (Spec (More [2] 11 (Last [3])))) = ([Req None; Req (Some 10); Req (Some 10); Req (Some 11)], VRows [1; 2; 3])
+  /\ arun_state (fst (init_cont (More [1] 10 (More [] 11 (Last [2])))))  [OIter; ONext; ONext; ONext; ONext; OHasMore]
+      = (Cont (mkCS [] true (Some (10, More [] 11 (Last [2])))), [Ret VSelf; Ret (VRow 1); Ret (VRow 2); Ret VStop; Ret VStop; Ret (VBool true)])
+  /\ iterate_retry srv = ([Req None; Req (Some 10); Req (Some 11); Req (Some 11); Req (Some 11); Req (Some 12)], VRows [1; 2; 3])
   /\ manual srv = ([Req None; Req (Some 10); Req (Some 11); Req (Some 11); Req (Some 11); Req (Some 12)], Some [1; 2; 3])
   /\ snd (iterate srv) = VError
   /\ snd (run_state (fst (init srv)) [OIter; ONext; ONext; ONext; ONext; ONext; ONext]) =
